@@ -269,7 +269,7 @@ PROPS = {
     ),
     "C10": dict(
         modules=["actor_lifecycle"],
-        contracts=[f"{ACTM}:Actor._run_loop", f"{ACTM}:Actor.start", f"{BGSM}:BackgroundService.cancel",
+        contracts=[f"{ACTM}:Actor._run_loop", f"{ACTM}:Actor._delay_if_restart", f"{ACTM}:Actor.start", f"{BGSM}:BackgroundService.cancel",
                    f"{BGSM}:BackgroundService.stop", "frequenz.sdk.actor._run_utils:run"],
         lemmas=[],
         bounded=[],
@@ -352,7 +352,8 @@ PROPS = {
     ),
     "C20": dict(
         modules=["ds_source"],
-        contracts=[f"{DSRC}._update_streams", f"{DSRC}.add_metric"],
+        contracts=[f"{DSRC}._update_streams", f"{DSRC}.add_metric",
+                   "frequenz.sdk.microgrid._data_pipeline:_DataPipeline._data_sourcing_request_sender"],
         lemmas=[],
         bounded=[dict(kind="native_script", name="MicrogridApiSource hand-over: exactly-once in-order delivery across subscription changes",
                       module="native.explore_datasource")],
@@ -370,6 +371,9 @@ PROPS = {
                      "_handle_data_stream (TaskGroup fan-out, asyncio.wait bookkeeping, cancellation at every await) is outside the "
                      "verifier's subset: hand-over across cancel/recreate is covered only by the bounded exploration (meter category, "
                      "two metrics, two namespaces, <= 3 messages, 0/1/3/20 loop iterations between events)",
+                     "the request channel of the data sourcing actor: _DataPipeline._data_sourcing_request_sender is proved to create "
+                     "the actor once and to give it a request receiver with at least the documented buffer (500 requests); larger "
+                     "bursts may drop requests in the channel library",
                      "DataSourcingActor._run and the registry are thin wrappers, not under contract"],
     ),
     "C05": dict(
